@@ -166,12 +166,7 @@ class Interp:
         self.last_fired = 0
         self.control_fired = 0
         self.unknown_lines = set()
-        for c in comps:
-            for node in walk(c):
-                if node[0] == "f" and node[1] == "counter":
-                    nm = self._name(node[2], None)
-                    if nm:
-                        self.vars[nm] = 0
+        self._counters_ready = False
 
     # ---------- run machine
     def run(self, rows, offered_set, scan_last, headers=None):
@@ -218,7 +213,20 @@ class Interp:
         if self._mc_at_start == self.match_count:
             self.match_count += 1
 
+    def _init_counters(self):
+        """docs/functions/counter.md: counters are 'accessible at any point as regular variables' - from the first evaluated record on"""
+        if self._counters_ready:
+            return
+        self._counters_ready = True
+        for c in self.comps:
+            for node in walk(c):
+                if node[0] == "f" and node[1] == "counter":
+                    nm = self._name(node[2], None)
+                    if nm and nm not in self.vars:
+                        self.vars[nm] = 0
+
     def _match_record(self):
+        self._init_counters()
         self._mc_at_start = self.match_count
         self.skip = False
         self.votes = [None] * len(self.comps)
@@ -277,6 +285,7 @@ class Interp:
 
     def _fire_lasts_on_blank_end(self):
         """the file ends in a blank record: last() components run once, nothing is returned (docs last.md; C13)."""
+        self._init_counters()
         self.frozen = True
         self._mc_at_start = self.match_count
         self.votes = [None] * len(self.comps)
@@ -588,18 +597,14 @@ class Interp:
     def _cmp(self, a, b):
         if a is None or b is None:
             return None
-        if is_none(a) or is_none(b):
-            raise Unspecified("ordering against an empty cell (the docs speak of None and nan only)")
         if isinstance(a, float) and math.isnan(a) or isinstance(b, float) and math.isnan(b):
             return None
         if is_numlike(a) and is_numlike(b):
             x, y = to_num(a), to_num(b)
             return (x > y) - (x < y)
-        if is_numlike(a) != is_numlike(b):
-            raise Unspecified("ordering a number against non-numeric text")
+        # "Comparison by the three types is attempted in this order: Number, Date, String": what is not a pair of numbers (dates are
+        # not generated) is compared as stripped strings, an empty cell being the empty string
         x, y = str(a).strip(), str(b).strip()
-        if x.lower() != x or y.lower() != y:
-            raise Unspecified("ordering mixed-case text")
         return (x > y) - (x < y)
 
     def m_above(self, n, q, a):
@@ -622,6 +627,13 @@ class Interp:
     # docs/functions/between.md
     def _three(self, a):
         v, x, y = (self.value(z) for z in a)
+        present = [t for t in (v, x, y) if t is not None]
+        if any(is_none(t) for t in present):
+            raise Unspecified("between family against an empty cell")
+        if len({is_numlike(t) for t in present}) > 1:
+            raise Unspecified("between family across numbers and text (docs/functions/between.md does not give a fallback)")
+        if any(isinstance(t, str) and t.strip().lower() != t.strip() for t in present if not is_numlike(t)):
+            raise Unspecified("between family on mixed-case text")
         c1, c2 = self._cmp(v, x), self._cmp(v, y)
         if c1 is None or c2 is None:
             return None
